@@ -115,7 +115,7 @@ Proof. exact ex_copy_ok. Qed.
 Theorem C08_paths_partial : forall q root l,
   wf_keys root ->
   research q root = Ok l ->
-  forall p r, In (p, r) l -> p <> [KNone] ->
+  forall p r, In (p, r) l -> ~ (p = [KNone] /\ r = oref_of root) ->   (* not the root's own entry *)
     crosses_set (collect_defs root) root p = false ->
     get_path root p = Ok r.
 Proof. exact research_paths_retrievable. Qed.
